@@ -913,6 +913,21 @@ macro_rules! sw_family {
                         v.push(mk($tp, "sum(iter &)", move || Ok(obs_p(&sl.iter().sum::<$P>()))));
                         cx.ops(v, &acc, &format!("list{len}"), hash_of(&(&refs[..len], len)), &|| json!({"points": refs[..len].iter().map(|r| hexp(spec, r)).collect::<Vec<_>>()}));
                     }
+                    // batch_normalize in several arrangements (identities must be harmless in every
+                    // position: first, middle, last): original order, reversed, rotated by one,
+                    // identity inserted between the first two points
+                    let (pts0, refs0) = (pts.clone(), refs.clone());
+                    for arrangement in ["original", "reversed", "rotated", "identity-inserted"] {
+                    let (mut pts, mut refs) = (pts0.clone(), refs0.clone());
+                    match arrangement {
+                        "reversed" => { pts.reverse(); refs.reverse(); }
+                        "rotated" if !pts.is_empty() => { pts.rotate_left(1); refs.rotate_left(1); }
+                        "identity-inserted" if pts.len() >= 2 => {
+                            pts.insert(1, <$P>::identity());
+                            refs.insert(1, c.identity());
+                        }
+                        _ => {}
+                    }
                     // batch_normalize: one library call, every output compared
                     let out = catch_any(|| {
                         let mut q = vec![<$A>::identity(); pts.len()];
@@ -921,13 +936,13 @@ macro_rules! sw_family {
                     });
                     cx.rep.eval();
                     cx.stat(format!("op|{}.batch_normalize", $tp));
-                    cx.rep.nontrivial(&($tp, "batch_normalize", hash_of(&refs)));
-                    let inp = json!({"points": refs.iter().map(|r| hexp(spec, r)).collect::<Vec<_>>()});
+                    cx.rep.nontrivial(&($tp, "batch_normalize", arrangement, hash_of(&refs)));
+                    let inp = json!({"arrangement": arrangement, "points": refs.iter().map(|r| hexp(spec, r)).collect::<Vec<_>>()});
                     match out {
                         Ok(q) => {
                             if let Some(j) = (0..pts.len()).find(|j| q[*j] != refs[*j]) {
                                 cx.rep.violation(&format!("C11/{}/batch_normalize/mismatch", $tp),
-                                    &format!("batch_normalize output {} (class {}) is {} instead of {}", j, on[j].cls, hexp(spec, &q[j]), hexp(spec, &refs[j])),
+                                    &format!("batch_normalize ({arrangement}) output {} is {} instead of {}", j, hexp(spec, &q[j]), hexp(spec, &refs[j])),
                                     json!({"family": $fam, "shard": label, "inputs": inp, "index": j}));
                             }
                         }
@@ -936,6 +951,7 @@ macro_rules! sw_family {
                             cx.rep.violation(&format!("C11/{}/batch_normalize/panic", $tp), &format!("batch_normalize panicked: {} at {}", pi.message, pi.location),
                                 json!({"family": $fam, "shard": label, "inputs": inp}));
                         }
+                    }
                     }
                 }
 
